@@ -11,10 +11,11 @@ def main():
     checks = []
     na = []
     claimed = []
+    integrated = set(open(os.path.join(VERIF, "integrated.txt")).read().split())
     for p in props:
         pid = p["id"]
         mp = os.path.join(VERIF, "props", pid, "meta.json")
-        if os.path.exists(mp) and os.path.exists(os.path.join(VERIF, "props", pid, "check.py")):
+        if pid in integrated and os.path.exists(mp) and os.path.exists(os.path.join(VERIF, "props", pid, "check.py")):
             m = json.load(open(mp))
             if m.get("not_applicable"):
                 na.append(dict(property_id=pid, reason=m["not_applicable"]))
@@ -47,6 +48,8 @@ def main():
     json.dump(man, open(os.path.join(VERIF, "MANIFEST.json"), "w"), indent=1)
     kf = dict(findings=[], fixed=[])
     for fp in sorted(glob.glob(os.path.join(VERIF, "props", "*", "findings.json"))):
+        if os.path.basename(os.path.dirname(fp)) not in integrated:
+            continue
         d = json.load(open(fp))
         kf["findings"] += d.get("findings", [])
         kf["fixed"] += d.get("fixed", [])
